@@ -2,6 +2,7 @@
 
 from __future__ import annotations
 
+import heapq
 import json
 from collections.abc import Iterable, Iterator, Mapping
 from dataclasses import dataclass, field, replace
@@ -623,8 +624,9 @@ class Hugr(Mapping[Node, NodeData], Generic[OpVarCov]):
         """
         mapping: dict[Node, Node] = {}
 
-        for node, node_data in hugr.nodes():
-            # relies on parents being inserted before any children
+        for node in hugr._hierarchy_order():
+            node_data = hugr[node]
+            # parents are listed before their children
             try:
                 node_parent = mapping[node_data.parent] if node_data.parent else parent
             except KeyError as e:
@@ -647,7 +649,7 @@ class Hugr(Mapping[Node, NodeData], Generic[OpVarCov]):
         """Serialize the HUGR."""
         # non contiguous indices are erased: every index written to the
         # serialized form is taken from this renumbering
-        order = [Node(idx) for idx, data in enumerate(self._nodes) if data is not None]
+        order = self._hierarchy_order()
         rekey = {node: Node(idx, {}) for idx, node in enumerate(order)}
 
         def _serialize_node(node: Node) -> SerialOp:
@@ -668,6 +670,31 @@ class Hugr(Mapping[Node, NodeData], Generic[OpVarCov]):
             edges=[_serialize_link(link) for link in self._links.items()],
             metadata=[self[node].metadata or None for node in order],
         )
+
+    def _hierarchy_order(self) -> list[Node]:
+        """The nodes of the HUGR, root first, every parent before its children
+        and siblings in child order. Among the orders satisfying this, nodes
+        are listed by increasing index: this is plain index order unless
+        indices freed by :meth:`delete_node` have been reused.
+        """
+        next_sibling: dict[NodeIdx, NodeIdx] = {}
+        for data in self._nodes:
+            if data is not None:
+                for child, sibling in zip(data.children, data.children[1:]):
+                    next_sibling[child.idx] = sibling.idx
+
+        order: list[Node] = []
+        ready = [self.root.idx]
+        while ready:
+            idx = heapq.heappop(ready)
+            order.append(Node(idx))
+            # listing a node unblocks its first child and its next sibling
+            children = self[order[-1]].children
+            if children:
+                heapq.heappush(ready, children[0].idx)
+            if idx in next_sibling:
+                heapq.heappush(ready, next_sibling[idx])
+        return order
 
     def _constrain_offset(self, p: P) -> PortOffset:
         # An offset of -1 is a special case, indicating an order edge,
